@@ -41,7 +41,7 @@ template<uint32_t SIZE> static inline void match_size(Cur& c) {
   if constexpr (SIZE == 16) c.lit("xmmword");
   if constexpr (SIZE == 32) c.lit("ymmword");
   if constexpr (SIZE == 64) c.lit("zmmword");
-  if constexpr (SIZE != 0) { c.sp(); c.lit("ptr"); c.sp(); }
+  if constexpr (SIZE != 0) c.lit(" ptr ");
 }
 template<uint32_t SEG> static inline void match_seg(Cur& c) {
   if constexpr (SEG == 1) c.lit("es:");
@@ -88,80 +88,62 @@ template<RegType BT, RegType IT, uint32_t SIZE, uint32_t SEG, uint32_t AT, uint3
   match_size<SIZE>(c);
   match_seg<SEG>(c);
   c.ch('[');
-  if (at == 1) { c.lit("abs"); c.sp(); }
-  if (at == 2) { c.lit("rel"); c.sp(); }
+  if (at == 1) c.lit("abs ");
+  if (at == 2) c.lit("rel ");
   if constexpr (HAS_BASE) match_reg_token(c, bt, bid);
   if constexpr (HAS_INDEX) {
-    c.sp(); if (HAS_BASE) { c.ch('+'); c.sp(); }
+    if (HAS_BASE) c.ch('+');
     match_reg_token(c, it, iid);
     if (shift) { c.ch('*'); c.ch(char('0' + (1u << shift))); }
   }
   if (disp != 0 || !(HAS_BASE || HAS_INDEX)) {
-    c.sp();
     if (disp < 0) c.ch('-'); else if (HAS_BASE || HAS_INDEX) c.ch('+');
-    c.sp();
     match_number<MAXDEC>(c, mag, hex);
   }
   c.ch(']');
   V_ASSERT(c.at_end(), "x86 memory operand text denotes size, segment, base, index, scale and displacement of the operand");
-  observe_text<64>(sb);
+  observe_text<16>(sb);
   V_WITNESS("x86 mem formatted");
 }
 
-// one dimension per harness, all its values (constants on each path), the other dimensions fixed
-template<RegType B, RegType I, unsigned OFFBITS, unsigned MAXDEC> static void mem_sizes() {
-  switch (nondet_u8()) {
-    case 0: mem_case<B, I, 0, 0, 0, 2, OFFBITS, MAXDEC>(); break;
-    case 1: mem_case<B, I, 1, 0, 0, 2, OFFBITS, MAXDEC>(); break;
-    case 2: mem_case<B, I, 2, 0, 0, 2, OFFBITS, MAXDEC>(); break;
-    case 3: mem_case<B, I, 4, 0, 0, 2, OFFBITS, MAXDEC>(); break;
-    case 4: mem_case<B, I, 6, 0, 0, 2, OFFBITS, MAXDEC>(); break;
-    case 5: mem_case<B, I, 8, 0, 0, 2, OFFBITS, MAXDEC>(); break;
-    case 6: mem_case<B, I, 10, 0, 0, 2, OFFBITS, MAXDEC>(); break;
-    case 7: mem_case<B, I, 16, 0, 0, 2, OFFBITS, MAXDEC>(); break;
-    case 8: mem_case<B, I, 32, 0, 0, 2, OFFBITS, MAXDEC>(); break;
-    case 9: mem_case<B, I, 64, 0, 0, 2, OFFBITS, MAXDEC>(); break;
-    default: V_ASSUME(false);
-  }
-}
-template<RegType B, RegType I, unsigned OFFBITS, unsigned MAXDEC> static void mem_segs() {
-  switch (nondet_u8()) {
-    case 1: mem_case<B, I, 0, 1, 0, 0, OFFBITS, MAXDEC>(); break;
-    case 2: mem_case<B, I, 4, 2, 0, 1, OFFBITS, MAXDEC>(); break;
-    case 3: mem_case<B, I, 0, 3, 0, 2, OFFBITS, MAXDEC>(); break;
-    case 4: mem_case<B, I, 8, 4, 0, 3, OFFBITS, MAXDEC>(); break;
-    case 5: mem_case<B, I, 0, 5, 1, 0, OFFBITS, MAXDEC>(); break;
-    case 6: mem_case<B, I, 16, 6, 2, 0, OFFBITS, MAXDEC>(); break;
-    default: V_ASSUME(false);
-  }
-}
-template<RegType B, RegType I, unsigned OFFBITS, unsigned MAXDEC> static void mem_marks() {   // abs/rel marker x scale
-  switch (nondet_u8()) {
-    case 0: mem_case<B, I, 0, 0, 1, 0, OFFBITS, MAXDEC>(); break;
-    case 1: mem_case<B, I, 0, 0, 2, 1, OFFBITS, MAXDEC>(); break;
-    case 2: mem_case<B, I, 4, 0, 1, 2, OFFBITS, MAXDEC>(); break;
-    case 3: mem_case<B, I, 8, 0, 2, 3, OFFBITS, MAXDEC>(); break;
-    case 4: mem_case<B, I, 0, 0, 0, 0, OFFBITS, MAXDEC>(); break;
-    case 5: mem_case<B, I, 0, 0, 0, 1, OFFBITS, MAXDEC>(); break;
-    case 6: mem_case<B, I, 0, 0, 0, 3, OFFBITS, MAXDEC>(); break;
-    default: V_ASSUME(false);
-  }
-}
 constexpr RegType NONE = RegType::kNone, GP64 = RegType::kGp64, GP32 = RegType::kGp32, GP16 = RegType::kGp16, PC = RegType::kPC, XMM = RegType::kVec128, YMM = RegType::kVec256, ZMM = RegType::kVec512;
-HARNESS h_x86mem_base_sizes() { mem_sizes<GP64, NONE, 12, 5>(); }
-HARNESS h_x86mem_base_index_sizes() { mem_sizes<GP64, GP64, 12, 5>(); }
-HARNESS h_x86mem_index_sizes() { mem_sizes<NONE, GP64, 12, 5>(); }
-HARNESS h_x86mem_abs_sizes() { mem_sizes<NONE, NONE, 12, 5>(); }
-HARNESS h_x86mem_base_segs() { mem_segs<GP32, NONE, 12, 5>(); }
-HARNESS h_x86mem_base_index_segs() { mem_segs<GP32, GP32, 12, 5>(); }
-HARNESS h_x86mem_abs_segs() { mem_segs<NONE, NONE, 12, 5>(); }
-HARNESS h_x86mem_base_index_marks() { mem_marks<GP64, GP64, 12, 5>(); }
-HARNESS h_x86mem_index_marks() { mem_marks<NONE, GP32, 12, 5>(); }
-HARNESS h_x86mem_abs_marks() { mem_marks<NONE, NONE, 12, 5>(); }
-HARNESS h_x86mem_rip() { mem_marks<PC, NONE, 12, 5>(); }
-HARNESS h_x86mem_b16_i16() { mem_marks<GP16, GP16, 12, 5>(); }
-HARNESS h_x86mem_vsib_x() { mem_marks<GP64, XMM, 12, 5>(); }
-HARNESS h_x86mem_vsib_y() { mem_marks<GP32, YMM, 12, 5>(); }
-HARNESS h_x86mem_vsib_z() { mem_marks<NONE, ZMM, 12, 5>(); }
-HARNESS h_x86mem_base_index_wide() { mem_case<GP64, GP64, 8, 5, 0, 3, 31, 10>(); }
-HARNESS h_x86mem_abs_wide() { mem_case<NONE, NONE, 4, 0, 1, 0, 40, 13>(); }
+// One harness per combination of the constant dimensions (a dispatch over them inside one harness costs the solver far more than the sum
+// of its cases). Each dimension takes all its values while the others are fixed: the formatter appends size keyword, segment, marker,
+// base, index, scale and displacement one after the other, independently. Naming: h_x86mem_<shape>_<size>_<seg>_<marker>_<scale>.
+HARNESS h_x86mem_bi_s0_g0_a0_x2() { mem_case<GP64, GP64, 0, 0, 0, 2, 12, 5>(); }
+HARNESS h_x86mem_bi_s1_g0_a0_x2() { mem_case<GP64, GP64, 1, 0, 0, 2, 12, 5>(); }
+HARNESS h_x86mem_bi_s2_g0_a0_x2() { mem_case<GP64, GP64, 2, 0, 0, 2, 12, 5>(); }
+HARNESS h_x86mem_bi_s4_g0_a0_x2() { mem_case<GP64, GP64, 4, 0, 0, 2, 12, 5>(); }
+HARNESS h_x86mem_bi_s6_g0_a0_x2() { mem_case<GP64, GP64, 6, 0, 0, 2, 12, 5>(); }
+HARNESS h_x86mem_bi_s8_g0_a0_x2() { mem_case<GP64, GP64, 8, 0, 0, 2, 12, 5>(); }
+HARNESS h_x86mem_bi_s10_g0_a0_x2() { mem_case<GP64, GP64, 10, 0, 0, 2, 12, 5>(); }
+HARNESS h_x86mem_bi_s16_g0_a0_x2() { mem_case<GP64, GP64, 16, 0, 0, 2, 12, 5>(); }
+HARNESS h_x86mem_bi_s32_g0_a0_x2() { mem_case<GP64, GP64, 32, 0, 0, 2, 12, 5>(); }
+HARNESS h_x86mem_bi_s64_g0_a0_x2() { mem_case<GP64, GP64, 64, 0, 0, 2, 12, 5>(); }
+HARNESS h_x86mem_b_s0_g1_a0_x0() { mem_case<GP32, NONE, 0, 1, 0, 0, 12, 5>(); }
+HARNESS h_x86mem_b_s0_g2_a0_x0() { mem_case<GP32, NONE, 0, 2, 0, 0, 12, 5>(); }
+HARNESS h_x86mem_b_s0_g3_a0_x0() { mem_case<GP32, NONE, 0, 3, 0, 0, 12, 5>(); }
+HARNESS h_x86mem_b_s0_g4_a0_x0() { mem_case<GP32, NONE, 0, 4, 0, 0, 12, 5>(); }
+HARNESS h_x86mem_b_s0_g5_a0_x0() { mem_case<GP32, NONE, 0, 5, 0, 0, 12, 5>(); }
+HARNESS h_x86mem_b_s0_g6_a0_x0() { mem_case<GP32, NONE, 0, 6, 0, 0, 12, 5>(); }
+HARNESS h_x86mem_bi_s0_g0_a1_x0() { mem_case<GP64, GP64, 0, 0, 1, 0, 12, 5>(); }
+HARNESS h_x86mem_bi_s0_g0_a2_x1() { mem_case<GP64, GP64, 0, 0, 2, 1, 12, 5>(); }
+HARNESS h_x86mem_bi_s0_g0_a0_x0() { mem_case<GP64, GP64, 0, 0, 0, 0, 12, 5>(); }
+HARNESS h_x86mem_bi_s0_g0_a0_x1() { mem_case<GP64, GP64, 0, 0, 0, 1, 12, 5>(); }
+HARNESS h_x86mem_bi_s0_g0_a0_x3() { mem_case<GP64, GP64, 0, 0, 0, 3, 12, 5>(); }
+HARNESS h_x86mem_abs_s4_g0_a0_x0() { mem_case<NONE, NONE, 4, 0, 0, 0, 12, 5>(); }
+HARNESS h_x86mem_abs_s4_g0_a1_x0() { mem_case<NONE, NONE, 4, 0, 1, 0, 12, 5>(); }
+HARNESS h_x86mem_abs_s4_g0_a2_x0() { mem_case<NONE, NONE, 4, 0, 2, 0, 12, 5>(); }
+HARNESS h_x86mem_abs_s0_g3_a0_x0() { mem_case<NONE, NONE, 0, 3, 0, 0, 12, 5>(); }
+HARNESS h_x86mem_i_s8_g0_a0_x0() { mem_case<NONE, GP32, 8, 0, 0, 0, 12, 5>(); }
+HARNESS h_x86mem_i_s8_g0_a0_x2() { mem_case<NONE, GP32, 8, 0, 0, 2, 12, 5>(); }
+HARNESS h_x86mem_b_s0_g0_a0_x0() { mem_case<GP64, NONE, 0, 0, 0, 0, 12, 5>(); }
+HARNESS h_x86mem_b_s8_g4_a2_x0() { mem_case<GP64, NONE, 8, 4, 2, 0, 12, 5>(); }
+HARNESS h_x86mem_rip_s8_g0_a0_x0() { mem_case<PC, NONE, 8, 0, 0, 0, 12, 5>(); }
+HARNESS h_x86mem_rip_s0_g5_a2_x0() { mem_case<PC, NONE, 0, 5, 2, 0, 12, 5>(); }
+HARNESS h_x86mem_b16i16_s2_g0_a0_x0() { mem_case<GP16, GP16, 2, 0, 0, 0, 12, 5>(); }
+HARNESS h_x86mem_vsibx_s4_g0_a0_x2() { mem_case<GP64, XMM, 4, 0, 0, 2, 12, 5>(); }
+HARNESS h_x86mem_vsiby_s8_g0_a0_x3() { mem_case<GP32, YMM, 8, 0, 0, 3, 12, 5>(); }
+HARNESS h_x86mem_vsibz_s0_g0_a0_x1() { mem_case<NONE, ZMM, 0, 0, 0, 1, 12, 5>(); }
+HARNESS h_x86mem_bi_s8_g5_a0_x3_wide() { mem_case<GP64, GP64, 8, 5, 0, 3, 31, 10>(); }
+HARNESS h_x86mem_abs_s4_g0_a1_x0_wide() { mem_case<NONE, NONE, 4, 0, 1, 0, 40, 13>(); }
